@@ -353,7 +353,7 @@ class Executor:
             ref = self.ref.request(key, inp['text'], inp['stem'], call['options'],
                                    self.params.get(call.get('param')) if call.get('param') else None,
                                    call.get('suffix', '.pdb'))
-            self.ref_digests.append([len(self.events), iid, record.digest(ref)])
+            self.ref_digests.append([len(self.events), iid, record.digest(ref), key[:16]])
             if 'exc' in ref:
                 exp['exc'] = ref['exc']
                 break
